@@ -226,6 +226,74 @@ without the heard query) -/
 example : (askType id [exInst0] (runOps id [] exLastWorse).1 500 false "_x._tcp.local.").1.isSome = true ∧
     (askType id [exInst0] (runOps id [] (exLastWorse.take 1)).1 500 false "_x._tcp.local.").1.isNone = true := by decide
 
+/-! ## what one `generate_service_query` / `_generate_request_query` call emits -/
+
+/-- **The questions of one browser query.**  `serviceQuestions` is `generate_service_query` up to the bucket grouping: the per-type loop
+with its questions collected in the dict keyed by `DNSQuestion`.  (1) Every question emitted is the PTR/IN question of one of the types,
+with the computed QU bit, exactly the known answers of that type and each of them on the wire with its remaining TTL; (2) no two emitted
+questions are the same question (two spellings of one type in the type set give one question — whichever spelling the set yields
+first); (3) every question the loop lets through is in the output; (4) the history afterwards is the history before plus the QM
+questions the loop let through, in order. -/
+theorem C13_service_query (cache : List Rec) (h : History) (now : Int) (qu : Bool) (tys : List String) :
+    (∀ x ∈ (serviceQuestions lower cache now qu tys h).1, ∃ ty ∈ tys,
+        x.q = { name := ty, type := 12, class_ := 1, unique := qu } ∧ x.known = knownAnswers lower cache ty 12 1 now ∧
+        (now ≠ 0 → x.wire = x.known.map (fun r => (r, ((r.created + 1000 * r.ttl - now) / 1000).toNat)))) ∧
+    DistinctKeys lower (serviceQuestions lower cache now qu tys h).1 ∧
+    (∀ o ∈ (serviceQuery lower cache now qu tys h).1, ∃ y ∈ (serviceQuestions lower cache now qu tys h).1, y.q.beq lower o.q = true) ∧
+    (serviceQuestions lower cache now qu tys h).2 = h.seeAll lower (sightingsOf now (serviceQuery lower cache now qu tys h).1) := by
+  refine ⟨?_, foldl_dictPut_distinct lower _ [] (by simp [DistinctKeys]), ?_, serviceQuery_history lower cache now qu tys h⟩
+  · intro x hx
+    obtain ⟨o1, h1, o2, h2, e1, e2, e3, e4⟩ :=
+      foldl_dictPut_fromLoop lower (serviceQuery lower cache now qu tys h).1 _ [] (fun o ho => ho) (by simp) x hx
+    obtain ⟨ty1, hm1, h1', ha1⟩ := serviceQuery_mem lower cache now qu tys h o1 h1
+    obtain ⟨ty2, hm2, h2', ha2⟩ := serviceQuery_mem lower cache now qu tys h o2 h2
+    obtain ⟨q1, -, -⟩ := C13_browser_question lower cache h1' now qu ty1 o1 ha1
+    obtain ⟨q2, k2, w2⟩ := C13_browser_question lower cache h2' now qu ty2 o2 ha2
+    have hlow : lower ty1 = lower ty2 := by
+      rw [q1, q2] at e4
+      have := (question_beq_iff lower _ _).1 e4
+      simp only [Question.specIdent, Prod.mk.injEq] at this
+      exact this.1
+    have hk : x.known = knownAnswers lower cache ty1 12 1 now := by
+      rw [e2, k2]; exact (knownAnswers_congr lower cache ty1 ty2 12 1 now hlow).symm
+    refine ⟨ty1, hm1, by rw [e1, q1], hk, ?_⟩
+    intro hn
+    rw [e3, w2 hn, e2]
+  · intro o ho
+    exact foldl_dictPut_complete lower _ [] o (Or.inl ho)
+
+/-- **The questions of one lookup query**: each is the SRV or TXT question of the instance name or the A or AAAA question of
+`server or name`, class IN, with the request's QU bit, exactly the known answers of that question, each on the wire with its remaining
+TTL; and the history afterwards is the history before plus the QM questions emitted, in order. -/
+theorem C13_request_query (cache : List Rec) (h : History) (now : Int) (qu : Bool) (name server : String) :
+    (∀ o ∈ (requestQuery lower cache h now qu name server).1,
+        ((o.q.name = name ∧ (o.q.type = 33 ∨ o.q.type = 16)) ∨ (o.q.name = server ∧ (o.q.type = 1 ∨ o.q.type = 28))) ∧
+        o.q.class_ = 1 ∧ o.q.unique = qu ∧ o.known = knownAnswers lower cache o.q.name o.q.type 1 now ∧
+        (now ≠ 0 → o.wire = o.known.map (fun r => (r, ((r.created + 1000 * r.ttl - now) / 1000).toNat)))) ∧
+    (requestQuery lower cache h now qu name server).2 = h.seeAll lower (sightingsOf now (requestQuery lower cache h now qu name server).1) := by
+  refine ⟨?_, requestQuery_history lower cache h now qu name server⟩
+  intro o ho
+  unfold requestQuery at ho
+  simp only [List.mem_filterMap, List.mem_cons, List.not_mem_nil, or_false, id] at ho
+  obtain ⟨r, hr, hro⟩ := ho
+  subst hro
+  rcases hr with h1 | h1 | h1 | h1
+  · obtain ⟨q, k, w⟩ := C13_lookup_question lower cache _ now qu name 33 1 true o h1.symm
+    refine ⟨Or.inl ⟨by rw [q], Or.inl (by rw [q])⟩, by rw [q], by rw [q], by rw [k, q], w⟩
+  · obtain ⟨q, k, w⟩ := C13_lookup_question lower cache _ now qu name 16 1 true o h1.symm
+    refine ⟨Or.inl ⟨by rw [q], Or.inr (by rw [q])⟩, by rw [q], by rw [q], by rw [k, q], w⟩
+  · obtain ⟨q, k, w⟩ := C13_lookup_question lower cache _ now qu server 1 1 false o h1.symm
+    refine ⟨Or.inr ⟨by rw [q], Or.inl (by rw [q])⟩, by rw [q], by rw [q], by rw [k, q], w⟩
+  · obtain ⟨q, k, w⟩ := C13_lookup_question lower cache _ now qu server 28 1 false o h1.symm
+    refine ⟨Or.inr ⟨by rw [q], Or.inr (by rw [q])⟩, by rw [q], by rw [q], by rw [k, q], w⟩
+
+/-- non-vacuity: a type set holding two spellings of one type, QU: the loop lets both through, the dict holds one question -/
+example :
+    let low : String → String := fun s => if s = "_X._tcp.local." then "_x._tcp.local." else s
+    ((serviceQuery low [] 1000 true ["_x._tcp.local.", "_X._tcp.local."] []).1.length,
+     (serviceQuestions low [] 1000 true ["_x._tcp.local.", "_X._tcp.local."] []).1.map (·.q.name)) = (2, ["_x._tcp.local."]) := by
+  decide
+
 /-! ## split over several packets with the TC bit -/
 
 section split
